@@ -15,15 +15,15 @@
    interleaving of draws with at most MaxResets resets.                                        *)
 EXTENDS Random, TLC
 
-CONSTANTS SR, SL, MaxResets, Bug
+CONSTANTS SR, SL, MaxResets, MaxCopies, Bug
 
 VARIABLES par, script,
           wh, wc, wv, wex,        \* wrapper: hidden state, cursor, all values, exhausted
           sh, sc, sv, sex,        \* reference distribution
-          nres,                   \* resets so far
+          nres, ncp,              \* resets / copies so far
           wpost,                  \* wrapper values since the last reset
           fh, fc, fv, fex         \* fresh distribution started at the last reset
-vars == <<par, script, wh, wc, wv, wex, sh, sc, sv, sex, nres, wpost, fh, fc, fv, fex>>
+vars == <<par, script, wh, wc, wv, wex, sh, sc, sv, sex, nres, ncp, wpost, fh, fc, fv, fex>>
 
 NoCache == <<>>
 
@@ -46,6 +46,12 @@ Draw(k, p, h, scr, cur) ==
          WrapperDrawH(ModelPair, k, p, NoCache, scr, cur)
     [] OTHER -> WrapperDrawH(ModelPair, k, p, h, scr, cur)
 
+\* the wrapper object is replaced by a copy of itself (copy of a distribution::basic, a variate made
+\* from the distribution object, a copied / moved variate)
+Copy(h) ==
+  CASE Bug = "copy_drops_hidden_state" -> NoCache   \* e.g. the copy is rebuilt from param()
+    [] OTHER -> WrapperCopy(h)
+
 Kind == "strong"
 
 Init ==
@@ -53,7 +59,7 @@ Init ==
   /\ par \in {[a |-> Decorate(Kind, m), b |-> Decorate(Kind, d)] : m \in {0, 10}, d \in {1, 3}}
   /\ wh = NoCache /\ wc = 0 /\ wv = <<>> /\ wex = FALSE
   /\ sh = NoCache /\ sc = 0 /\ sv = <<>> /\ sex = FALSE
-  /\ nres = 0 /\ wpost = <<>>
+  /\ nres = 0 /\ ncp = 0 /\ wpost = <<>>
   /\ fh = NoCache /\ fc = 0 /\ fv = <<>> /\ fex = FALSE
 
 DoDraw ==
@@ -67,7 +73,15 @@ DoDraw ==
         /\ sh' = s.hidden /\ sc' = s.cursor /\ sex' = s.ex /\ sv' = IF s.ex THEN sv ELSE Append(sv, s.val)
         /\ IF fex THEN UNCHANGED <<fh, fc, fv, fex>>
            ELSE /\ fh' = f.hidden /\ fc' = f.cursor /\ fex' = f.ex /\ fv' = IF f.ex THEN fv ELSE Append(fv, f.val)
-  /\ UNCHANGED <<par, script, nres>>
+  /\ UNCHANGED <<par, script, nres, ncp>>
+
+\* the reference copies the wrapped distribution object: its hidden state is unchanged
+DoCopy ==
+  /\ ~wex /\ ~sex
+  /\ ncp < MaxCopies
+  /\ ncp' = ncp + 1
+  /\ wh' = Copy(wh)
+  /\ UNCHANGED <<par, script, wc, wv, wex, sh, sc, sv, sex, nres, wpost, fh, fc, fv, fex>>
 
 DoReset ==
   /\ ~wex /\ ~sex
@@ -77,9 +91,9 @@ DoReset ==
   /\ sh' = NoCache
   /\ wpost' = <<>>
   /\ fh' = NoCache /\ fc' = wc /\ fv' = <<>> /\ fex' = FALSE
-  /\ UNCHANGED <<par, script, wc, wv, wex, sc, sv, sex>>
+  /\ UNCHANGED <<par, script, wc, wv, wex, sc, sv, sex, ncp>>
 
-Next == DoDraw \/ DoReset
+Next == DoDraw \/ DoReset \/ DoCopy
 Spec == Init /\ [][Next]_vars
 
 \* lock-step with the wrapped distribution driven through the same operations
@@ -88,6 +102,9 @@ LawTransparentH == wv = sv /\ wc = sc /\ wex = sex
 \* after reset() the wrapper's future is that of a fresh distribution with the same parameters
 \* on the same engine state (before the first reset the distribution itself is the fresh one)
 LawResetFresh == wpost = fv /\ wc = fc /\ wex = fex
+
+\* a copy carries the hidden state (checked directly; LawTransparentH sees the consequences)
+LawCopyKeeps == [][ncp' = ncp + 1 => wh' = wh]_vars
 
 \* values do not depend on raw values consumed before the last reset: the hidden state after a
 \* reset is the initial one
